@@ -430,6 +430,7 @@ func (u *Unit) execUnOp(st *State, x *ssa.UnOp) {
 		v.T = x.Type()
 		st.assume(u.typeFacts(v, x.Type()))
 		u.knownRef(st, v, x.Type())
+		u.entryClosed(st, l, v, x.Type())
 		st.vals[x] = v
 		if g, ok := x.X.(*ssa.Global); ok {
 			if _, isMap := x.Type().Underlying().(*types.Map); isMap {
@@ -764,10 +765,10 @@ func (u *Unit) execStore(st *State, x *ssa.Store) {
 // ---------- maps ----------
 
 type mapComps struct {
-	dom, val, card          string
-	domS, valS, ks, vs      string
-	kT, vT                  types.Type
-	unitVal                 bool
+	dom, val, card     string
+	domS, valS, ks, vs string
+	kT, vT             types.Type
+	unitVal            bool
 }
 
 func (u *Unit) mapComps(t types.Type) mapComps {
